@@ -112,6 +112,23 @@ MUTATIONS = [
      "what": "get_conditional_independencies only computes the topological policy when the argument is omitted (sentinel), an explicit policy=None reaches min(key=None) on judgements",
      "old": "    if policy is None:\n        policy = get_topological_policy(graph)\n    return minimal(",
      "new": "    if policy is None and max_conditions is not None:\n        policy = get_topological_policy(graph)\n    if policy is None:\n        return {min(vs) for _, vs in groupby(sorted(d_separations(graph, max_conditions=max_conditions, **kwargs), key=_judgement_grouper), _judgement_grouper)}\n    return minimal("},
+    # ---------------------------------------------------------------- are_sigma_separated (C20)
+    {"id": "m20_conditions_not_copied", "props": ["C20"], "file": SIG,
+     "what": "are_sigma_separated keeps the caller's iterable instead of set(conditions): a one-shot iterable is consumed by the first membership test",
+     "old": "    if conditions is None:\n        conditions = set()\n    else:\n        conditions = set(conditions)\n\n    sigma = get_equivalence_classes(graph)",
+     "new": "    if conditions is None:\n        conditions = set()\n\n    sigma = get_equivalence_classes(graph)"},
+    {"id": "m20_default_none_removed", "props": ["C20"], "file": SIG,
+     "what": "are_sigma_separated no longer replaces conditions=None (omitted / explicit None)",
+     "old": "    if conditions is None:\n        conditions = set()\n    else:\n        conditions = set(conditions)\n\n    sigma = get_equivalence_classes(graph)",
+     "new": "    conditions = set(conditions)\n\n    sigma = get_equivalence_classes(graph)"},
+    {"id": "m20_keyword_renamed", "props": ["C20"], "file": SIG,
+     "what": "are_sigma_separated: parameters left/right renamed to a/b (keyword callers break)",
+     "old": "    graph: NxMixedGraph,\n    left: Variable,\n    right: Variable,\n    *,\n    conditions: Iterable[Variable] | None = None,\n    cutoff: int | None = None,\n) -> bool:\n    \"\"\"Test if two variables are sigma-separated.",
+     "new": "    graph: NxMixedGraph,\n    a: Variable,\n    b: Variable,\n    *,\n    conditions: Iterable[Variable] | None = None,\n    cutoff: int | None = None,\n) -> bool:\n    \"\"\"Test if two variables are sigma-separated.\"\"\"\n    return _are_sigma_separated(graph, a, b, conditions=conditions, cutoff=cutoff)\n\n\ndef _are_sigma_separated(\n    graph: NxMixedGraph,\n    left: Variable,\n    right: Variable,\n    *,\n    conditions: Iterable[Variable] | None = None,\n    cutoff: int | None = None,\n) -> bool:\n    \"\"\"Test if two variables are sigma-separated."},
+    {"id": "m20_cutoff_none_is_zero", "props": ["C20"], "file": SIG,
+     "what": "an explicit cutoff=None is coerced with `cutoff or 0`-style arithmetic only when the argument is passed... modelled as: cutoff defaults to the number of nodes minus 2 when None (paths through every node are cut)",
+     "old": "        for path in nx.all_simple_paths(graph.disorient(), left, right, cutoff=cutoff)",
+     "new": "        for path in nx.all_simple_paths(graph.disorient(), left, right, cutoff=cutoff if cutoff is not None else max(len(graph) - 2, 1))"},
 ]
 
 
